@@ -283,7 +283,15 @@ def fsqrt(a):
             return FV(a.w, x)
         return FV(a.w, rw(a.w, math.sqrt(x)))
     if is_real(a):
-        s = CTX.fresh('sqrt', z3.RealSort())
+        # one square-root variable per argument term (the term is kept alive by the memo, so
+        # its AST id cannot be recycled): sqrt of syntactically equal arguments is one value
+        memo = CTX.uf.setdefault('sqrt-memo', {})
+        hit = memo.get(a.v.get_id())
+        if hit is not None and hit[0].eq(a.v):
+            s = hit[1]
+        else:
+            s = CTX.fresh('sqrt', z3.RealSort())
+            memo[a.v.get_id()] = (a.v, s)
         CTX.pending.append(z3.And(s >= 0, s * s == a.v))
         CTX.assumptions.add('real reading: sqrt arguments are non-negative')
         return FV(a.w, _round_real(s, a.w))
@@ -298,7 +306,9 @@ def fconv(a, w):
     if is_real(a):
         if w < a.w:
             return FV(w, _round_real(a.v, w))
-        return FV(w, a.v)
+        # widening is exact; normalise the term here (conversions are few): values that went
+        # through an affine map and back (pixel -> viewBox) become the original variable again
+        return FV(w, z3.simplify(a.v, som=True) if CTX.mode in ('X', 'Rx') else a.v)
     return FV(w, z3.fpFPToFP(RNE, a.v, sort_of(w)))
 
 
